@@ -405,6 +405,8 @@ type Path struct {
 	inInit   bool
 	payload  map[*Term]Value
 	witness  *Violation
+	tornIDs  []*Term
+	crcArgs  []*Term
 	pcDirty  bool // assumptions added since the last satisfiability check
 }
 
